@@ -2323,4 +2323,49 @@ theorem idem_pdb (d : PdbS) (h : reprPdb d = true) :
   rw [roundtrip_pdb _ (reprPdb_quant d h), quantPdb_idem d hl]
 
 
+
+/-! ## XCFG and CIF: record-level round trips (the file-level statements are not proved) -/
+
+theorem PadOf_tok {t : Str} (ht : IsTok t) : PadOf t t :=
+  ⟨[], [], (by intro c h; cases h), (by intro c h; cases h), by simp, ht⟩
+
+theorem forall₂_map_same {α} (f : α → Str) (hf : ∀ x, IsTok (f x)) : ∀ l : List α, List.Forall₂ PadOf (l.map f) (l.map f)
+  | [] => .nil
+  | x :: xs => .cons (PadOf_tok (hf x)) (forall₂_map_same f hf xs)
+
+/-- an XCFG entry line (`"{:.8g}" …` joined by blanks) reads back as the numbers rounded to eight
+significant digits, for any number of columns -/
+theorem xcfg_entry_roundtrip (vs : List Rat) :
+    (splitWs (ssv (vs.map g8))).mapM parseDec = some (vs.map (roundSig 8)) := by
+  rw [ssv, splitWs_joinSep_pad AllWs_one (by simp) _ _ (forall₂_map_same g8 (fun x => IsTok_fmtG 8 x) vs)]
+  induction vs with
+  | nil => rfl
+  | cons v vs ih => simp [g8, parseDec_fmtG, ih]
+
+theorem xcfgEntry_roundtrip (L : XLayout) (a : XAtom) :
+    ∃ vs : List Rat, xcfgEntry L a = ssv (vs.map g8) ∧
+      (splitWs (xcfgEntry L a)).mapM parseDec = some (vs.map (roundSig 8)) := by
+  refine ⟨_, rfl, ?_⟩
+  unfold xcfgEntry
+  exact xcfg_entry_roundtrip _
+
+/-- a row of the CIF `_atom_site` loop splits into its eight values, and the numeric ones read back
+rounded to the printed precision -/
+theorem cif_row_roundtrip (label : Str) (a : CifAtom) (hl : IsTok label) (he : IsTok a.el) :
+    splitWs (cifAtomLine label a) =
+      [label, a.el, fmtFbody 6 a.xyz.x, fmtFbody 6 a.xyz.y, fmtFbody 6 a.xyz.z, fmtFbody 6 a.uiso,
+       (if uIsIso a.u then "Uiso".toList else "Uani".toList), fmtFbody 4 a.occ] ∧
+    ([fmtFbody 6 a.xyz.x, fmtFbody 6 a.xyz.y, fmtFbody 6 a.xyz.z, fmtFbody 6 a.uiso, fmtFbody 4 a.occ].mapM parseDec
+      = some [roundTo 6 a.xyz.x, roundTo 6 a.xyz.y, roundTo 6 a.xyz.z, roundTo 6 a.uiso, roundTo 4 a.occ]) := by
+  constructor
+  · unfold cifAtomLine
+    rw [splitWs_allWs_append (AllWs_sp 2)]
+    have hadp : IsTok (if uIsIso a.u then "Uiso".toList else "Uani".toList) := by
+      split <;> exact ⟨by decide, by intro c hc; revert c; decide⟩
+    exact splitWs_joinSep_pad AllWs_one (by simp) _ _
+      (.cons (PadOf_padRight 5 _ hl) (.cons (PadOf_padRight 3 _ he) (.cons (PadOf_fmtF _ _ _) (.cons (PadOf_fmtF _ _ _)
+        (.cons (PadOf_fmtF _ _ _) (.cons (PadOf_fmtF _ _ _) (.cons (PadOf_padRight 5 _ hadp) (.cons (PadOf_fmtF _ _ _) .nil))))))))
+  · simp [parseDec_fmtFbody]
+
+
 end DS.Formats
